@@ -36,6 +36,8 @@ type session struct {
 	text bool
 	opq  uint32
 	keys []string
+	// shared: the backends also hold entries of other sessions
+	shared bool
 }
 
 func (s *session) client(port string) *wire.Client {
@@ -69,6 +71,16 @@ func (s *session) do(port string, c MCmd) ([]interface{}, wire.Outcome) {
 
 func (s *session) tiers() (interface{}, interface{}) {
 	l1, l2 := s.st.Project(s.w, s.keys)
+	if s.shared {
+		// other connections keep their own keys in the same backends
+		for _, m := range []stack.MMap{l1, l2} {
+			for k := range m {
+				if len(k) > 0 && k[0] == '?' {
+					delete(m, k)
+				}
+			}
+		}
+	}
 	return tierJSON(l1), tierJSON(l2)
 }
 
